@@ -265,6 +265,37 @@ func Direct[C any](t *testing.T, c C, check func(C) Result) bool {
 	return true
 }
 
+// ReplayDirect: in replay mode, re-run the stored case of an enumeration test (one that
+// accounts its cases through Direct). Returns true when the binary is in replay mode
+// (the enumeration itself is then skipped).
+func ReplayDirect[C any](t *testing.T, check func(C) Result) bool {
+	rp := envPath("VERIF_REPLAY")
+	if rp == "" {
+		return false
+	}
+	b, err := os.ReadFile(rp)
+	if err != nil {
+		t.Fatalf("replay: %v", err)
+	}
+	var rf replayFile
+	if err := json.Unmarshal(b, &rf); err != nil {
+		t.Fatalf("replay: %v", err)
+	}
+	if rf.Test != t.Name() {
+		t.Skip("replay file is for another test")
+	}
+	var c C
+	if err := json.Unmarshal(rf.Case, &c); err != nil {
+		t.Fatalf("replay: bad case: %v", err)
+	}
+	r := check(c)
+	Record(t.Name(), rf.Case, &r)
+	if r.Fail != "" && r.Known == "" {
+		t.Fatalf("REPLAY-FAIL %s", r.Fail)
+	}
+	return true
+}
+
 // ReplayOnly reports whether the binary is in replay mode (enumerations skip themselves).
 func ReplayOnly() bool { return envPath("VERIF_REPLAY") != "" }
 
